@@ -54,6 +54,8 @@ def gen(seed, tier):
             yield {"prop": PROP, "op": "pos", "t": f, "c": c}
             for sp in range(0, len(f)):
                 yield {"prop": PROP, "op": "pos", "t": f, "c": c, "sp": sp}
+                # a read with the same shortcut returns the value at c (or the default), never anything else
+                yield {"prop": PROP, "op": "pos", "t": f, "c": c, "sp": sp, "via": "get"}
             # getPositionRef: the position returned must be where the element then is
             yield {"prop": PROP, "op": "pos", "t": f, "c": c, "ref": True}
             for sp in range(0, len(f)):
@@ -97,7 +99,9 @@ def run(case):
         side = {}
         meth = f.getPositionRef if case.get("ref") else f.getPosition
         try:
-            if case.get("via") == "payload":
+            if case.get("via") == "get":
+                case["impl"] = H.snapshot(f.getPayload(case["c"], start_pos=case["sp"]))
+            elif case.get("via") == "payload":
                 h = f.getPayloadRef(case["c"], start_pos=case["sp"])
                 case["impl"] = H.pos_of(f.payloads, h)      # where the handle is stored (identity)
                 if case["impl"] < 0:
